@@ -6,12 +6,14 @@ import (
 	"encoding/json"
 	"fmt"
 	"os"
+	"reflect"
 	"regexp"
 	"sort"
 	"strconv"
 	"strings"
 	"time"
 
+	ledgercontroller "github.com/formancehq/ledger/internal/controller/ledger"
 	"github.com/formancehq/ledger/verifh/ev"
 	"github.com/formancehq/ledger/verifh/pgsim"
 	"github.com/formancehq/ledger/verifh/reg"
@@ -49,6 +51,113 @@ type mcase struct {
 	Must bool `json:"must,omitempty"`
 	// Sanity: the request is VALID and must be 2xx (vacuity guard, not a mutation).
 	Sanity bool `json:"sanity,omitempty"`
+	// Then: the requests the SAME server process serves after Req, in order (see follow).
+	Then []follow `json:"then,omitempty"`
+}
+
+// follow is one request served by the same process (same Env: same Go object graph, same
+// in-memory caches, same database) after the mutated request of a case. What a refused
+// request leaves behind IN THE PROCESS (a cache entry, a half-initialised object, an open
+// transaction) only shows when the process serves a later request.
+//
+//	repeat          the byte-identical request again (client retry)
+//	other-api       the same body through the same route of the other API version (v1 <-> v2)
+//	as-bulk-element the same transaction payload as the single element of an atomic v2 _bulk
+//	as-single       the bulk element the mutation touched, through POST /v2/{ledger}/transactions
+//
+// The oracle of a follow-up is the oracle of any request (no 5xx/panic/crash, well-formed
+// body, 4xx leaves the database as it was BEFORE THAT request); the repeat is as
+// definitely-invalid as the request it repeats, the re-routed ones are in doubt (the tables
+// of definitely-invalid input are per route). And, for the repeat only: when the first send
+// left the database unchanged, the process faces the same input on the same state, so the
+// class of the answer (2xx / 4xx) must be the same.
+type follow struct {
+	Kind  string `json:"kind"`
+	API   string `json:"api"`
+	Route string `json:"route"`
+	Req   Req    `json:"req"`
+}
+
+const (
+	fRepeat   = "repeat"
+	fOtherAPI = "other-api"
+	fAsBulk   = "as-bulk-element"
+	fAsSingle = "as-single"
+)
+
+var followKinds = []string{fRepeat, fOtherAPI, fAsBulk, fAsSingle}
+
+const createTxRoute = "POST /{ledger}/transactions"
+const bulkRoute = "POST /{ledger}/_bulk"
+
+// followUps derives the follow-up requests of a case. seedBody is the body of the seed
+// (to find the bulk element a mutation touched).
+func followUps(c *mcase, seedBody string) []follow {
+	out := []follow{{Kind: fRepeat, API: c.Seed.API, Route: c.Seed.Route, Req: c.Req}}
+	switch c.Seed.Route {
+	case createTxRoute:
+		// v1 <-> v2: same method, headers and body; the path gains/loses the /v2 prefix; of the
+		// query string only the dry-run switch has a counterpart (dryRun <-> preview)
+		o := c.Req.clone()
+		o.Query = nil
+		other := "v1"
+		if c.Seed.API == "v2" {
+			o.Path = strings.TrimPrefix(c.Req.Path, "/v2")
+		} else {
+			o.Path = "/v2" + c.Req.Path
+			other = "v2"
+		}
+		for _, kv := range c.Req.Query {
+			switch {
+			case kv.K == "dryRun" && other == "v1":
+				o.Query = append(o.Query, KV{"preview", kv.V})
+			case kv.K == "preview" && other == "v2":
+				o.Query = append(o.Query, KV{"dryRun", kv.V})
+			}
+		}
+		out = append(out, follow{Kind: fOtherAPI, API: other, Route: createTxRoute, Req: o})
+		// single -> element of an atomic bulk (v2 only; the body must be one JSON value)
+		v2path := "/v2" + strings.TrimPrefix(c.Req.Path, "/v2")
+		if doc, err := parseJSON(c.Req.Body); err == nil && jsonOK(c.Req.Body) {
+			b := Req{Method: "POST", Path: strings.TrimSuffix(v2path, "/transactions") + "/_bulk", Headers: jsonCT,
+				Query: []KV{{"atomic", "true"}},
+				Body:  encJSON([]any{map[string]any{"action": "CREATE_TRANSACTION", "data": doc}})}
+			for _, kv := range c.Req.Query {
+				if kv.K == "schemaVersion" {
+					b.Query = append(b.Query, kv)
+				}
+			}
+			out = append(out, follow{Kind: fAsBulk, API: "v2", Route: bulkRoute, Req: b})
+		}
+	case bulkRoute:
+		// bulk -> single: every CREATE_TRANSACTION element that differs from the element of
+		// the seed at the same index (the one the mutation touched)
+		seedDoc, _ := parseJSON(seedBody)
+		seedEls, _ := seedDoc.([]any)
+		doc, err := parseJSON(c.Req.Body)
+		els, ok := doc.([]any)
+		if err != nil || !ok {
+			break
+		}
+		for i, el := range els {
+			m, ok := el.(map[string]any)
+			if !ok || m["action"] != "CREATE_TRANSACTION" {
+				continue
+			}
+			data, ok := m["data"]
+			if !ok {
+				continue
+			}
+			if i < len(seedEls) {
+				if sm, ok := seedEls[i].(map[string]any); ok && encJSON(sm["data"]) == encJSON(data) {
+					continue
+				}
+			}
+			r := Req{Method: "POST", Path: strings.TrimSuffix(c.Req.Path, "/_bulk") + "/transactions", Headers: jsonCT, Body: encJSON(data)}
+			out = append(out, follow{Kind: fAsSingle, API: "v2", Route: createTxRoute, Req: r})
+		}
+	}
+	return out
 }
 
 // seedRef is what a case needs to know about its seed (plain data: cases travel to the
@@ -422,8 +531,8 @@ func casesOf(s *Seed, seedResp Resp, thorough bool) ([]mcase, error) {
 }
 
 // wellFormed checks the shape of the response for its status.
-func wellFormed(c *mcase, r Resp) string {
-	if c.Req.Method == "HEAD" {
+func wellFormed(method, route string, r Resp) string {
+	if method == "HEAD" {
 		return "" // a HEAD response has no body to speak of
 	}
 	switch {
@@ -435,7 +544,7 @@ func wellFormed(c *mcase, r Resp) string {
 		if r.Body == "" {
 			return ""
 		}
-		if strings.HasSuffix(c.Seed.Route, "/logs/export") {
+		if strings.HasSuffix(route, "/logs/export") {
 			if _, ok := parseBody(r.Body, true); !ok {
 				return "export stream is not a sequence of JSON documents"
 			}
@@ -449,7 +558,7 @@ func wellFormed(c *mcase, r Resp) string {
 			return ""
 		}
 		// the documented shape of a failed bulk: 400 + {"data":[{responseType:ERROR,errorCode…}]}
-		if strings.HasSuffix(c.Seed.Route, "/_bulk") {
+		if strings.HasSuffix(route, "/_bulk") {
 			var b struct {
 				Data []struct {
 					ResponseType string `json:"responseType"`
@@ -475,6 +584,23 @@ func statusClass(st int) string { return fmt.Sprintf("%dxx", st/100) }
 type c38plan struct {
 	ctx   *c38ctx
 	cases []mcase
+	// scriptCacheLive: in the explored stack, parsing one script twice gives the SAME
+	// compiled program, under both runtimes (the production cache is wired in).
+	scriptCacheLive bool
+}
+
+func scriptCacheLive(e *Env) bool {
+	const src = "send [USD/2 1] (\n source = @world\n destination = @dave\n)"
+	for _, p := range []interface {
+		Parse(string) (ledgercontroller.NumscriptRuntime, error)
+	}{e.W.MachineParser, e.W.InterpreterParser} {
+		a, err1 := p.Parse(src)
+		b, err2 := p.Parse(src)
+		if err1 != nil || err2 != nil || a == nil || reflect.ValueOf(a).Kind() != reflect.Pointer || a != b {
+			return false
+		}
+	}
+	return true
 }
 
 func planC38(thorough bool) (*c38plan, error) {
@@ -485,6 +611,7 @@ func planC38(thorough bool) (*c38plan, error) {
 	}
 	e0 := NewEnv(c.boot.Clone())
 	bootDump := e0.Dump()
+	cacheLive := scriptCacheLive(e0)
 	e0.Close()
 	var cases []mcase
 	for i := range c.seeds {
@@ -503,9 +630,16 @@ func planC38(thorough bool) (*c38plan, error) {
 		if err != nil {
 			return nil, fmt.Errorf("seed %s: %v", s.id(), err)
 		}
+		for k := range cs {
+			if !cs[k].Sanity {
+				cs[k].Then = followUps(&cs[k], s.Req.Body)
+			} else {
+				cs[k].Then = []follow{{Kind: fRepeat, API: s.API, Route: s.Route, Req: cs[k].Req}}
+			}
+		}
 		cases = append(cases, cs...)
 	}
-	return &c38plan{ctx: c, cases: cases}, nil
+	return &c38plan{ctx: c, cases: cases, scriptCacheLive: cacheLive}, nil
 }
 
 var c38Boot = map[string]any{"ledgers": c38Ledgers, "history": c38History}
@@ -513,6 +647,7 @@ var c38Boot = map[string]any{"ledgers": c38Ledgers, "history": c38History}
 var reDigits = regexp.MustCompile(`[0-9]+`)
 var reQuoted = regexp.MustCompile(`'[^']*'|"[^"]*"|` + "`[^`]*`")
 var reSQLState = regexp.MustCompile(`SQLSTATE [0-9A-Z]{5}`)
+var reWouldBlock = regexp.MustCompile(`pgsim: session [0-9]+ would block on (.*?) in sequential mode`)
 var reMsg = regexp.MustCompile(`msg="((?:[^"\\]|\\.)*)"`)
 
 // errorCause normalises what the server logged for an INTERNAL error into a stable
@@ -633,7 +768,16 @@ func errorCodeOf(body string) string {
 	return m.ErrorCode
 }
 
-// execC38 runs one case on a fresh clone and classifies the outcome.
+// sentReq is one request already served by the process of a case, with its status.
+type sentReq struct {
+	Kind   string `json:"kind"`
+	Req    Req    `json:"request"`
+	Status int    `json:"status"`
+}
+
+// execC38 runs one case on a fresh clone — one simulated server process serving the
+// preliminary requests, the mutated request, then its follow-ups — and classifies the
+// outcome of every request served.
 func execC38(boot *pgsim.DB, c *mcase) caseResult {
 	res := caseResult{Counts: map[string]int64{}}
 	e := NewEnv(boot.Clone())
@@ -645,91 +789,269 @@ func execC38(boot *pgsim.DB, c *mcase) caseResult {
 			return res
 		}
 	}
-	before := e.Dump()
-	resp, ok := e.Do(c.Req)
-	if !ok {
-		res.Counts["not_constructible"]++
+	kind := coarseKind(c.Loc)
+	var sent []sentReq // what this process has served since the preliminary requests
+
+	// serve sends one request and applies the oracle of the property to it. kind "" is the
+	// mutated request itself. It returns the response, whether the database changed, and
+	// whether the exploration of this case may go on.
+	serve := func(fk, api, route string, req Req, must, sanity, partial bool) (Resp, bool, bool) {
+		first := fk == ""
+		label := "first send"
+		if !first {
+			label = fk
+		}
+		reportStep(label + ": " + req.Method + " " + req.Path)
+		before := e.Dump()
+		resp, ok := e.Do(req)
+		if !ok {
+			if first {
+				res.Counts["not_constructible"]++
+			}
+			return resp, false, false
+		}
+		changed := e.Dump() != before
+		history := append([]sentReq(nil), sent...)
+		sent = append(sent, sentReq{Kind: label, Req: req, Status: resp.Status})
+		desc := func(msg string) string {
+			d := fmt.Sprintf("%s — seed %s, mutation %s=%s; request: %s; response: %s", msg, c.Seed.id(), c.Loc, c.Repl, req, resp.short())
+			if !first {
+				var hs []string
+				for _, h := range history {
+					hs = append(hs, fmt.Sprintf("%s %s %s -> %d", h.Kind, h.Req.Method, h.Req.URL(), h.Status))
+				}
+				d = fmt.Sprintf("[%s, after the same server process had served: %s] ", fk, strings.Join(hs, "; ")) + d
+			}
+			return d
+		}
+		if isEngine(resp) {
+			if m := reWouldBlock.FindStringSubmatch(resp.Log + resp.Body); m != nil {
+				// pgsim (sequential mode: one request in flight, every earlier request of this
+				// process has been answered) reports that the request must WAIT for a lock. Its
+				// holder is a database session that no running request drives: one that an
+				// already-answered request left open with the lock held (or another connection of
+				// this very request). Nothing will ever release it: on a Postgres server the
+				// request waits until the client gives up. That is an outcome, not a harness limit.
+				lock := reDigits.ReplaceAllString(m[1], "N")
+				res.Counts["blocked_for_ever"]++
+				res.Counts["blocked_for_ever:"+label]++
+				sig := fmt.Sprintf("C38:no-response:blocked-on-%s-left-held:%s:%s", strings.ReplaceAll(lock, " ", "-"), api, route)
+				rp := c38replay(c, &resp)
+				var pre []Req
+				pre = append(pre, c.Pre...)
+				for _, h := range history {
+					pre = append(pre, h.Req)
+				}
+				rp["pre"], rp["request"], rp["follow_up"], rp["served_before_by_the_same_process"] = pre, req, label, history
+				res.Viol = append(res.Viol, violRec{Sig: sig, Replay: rp, What: desc("no response: the request waits for a lock (" + m[1] + ") held by a database session that no request in flight owns (left open, lock held, by a request this process has already answered); pgsim, which serves one request at a time, reports the wait as an error, a Postgres server would make the client wait for ever")})
+				return resp, changed, false
+			}
+			if strings.Contains(resp.Log+resp.Body, "pgsim: parse:") {
+				// the mutation made the ledger emit SQL text that pgsim's parser rejects. pgsim
+				// cannot tell invalid SQL (a genuine 5xx on Postgres) from valid SQL it does not
+				// support, so the case is neither a violation nor evidence: inconclusive.
+				if first {
+					res.Counts["inconclusive"]++
+				} else {
+					res.Counts["inconclusive_follow_up"]++
+				}
+				if res.Extra == nil {
+					res.Extra = map[string]string{"inconclusive": desc("SQL text rejected by pgsim's parser")}
+				}
+				return resp, changed, false
+			}
+			res.Engine = desc("pgsim engine error surfaced")
+			return resp, changed, false
+		}
+		// the signature of a follow-up is the signature the same outcome would have on the
+		// route it was sent to (root-cause level), or names the follow-up kind
+		sc := *c
+		sc.Seed.API, sc.Seed.Route = api, route
+		viol := func(outcome, cause, msg string) {
+			sig := c38sig(&sc, outcome, cause)
+			if !first {
+				switch outcome {
+				case "panic", "process-crash", "5xx", "no-response", "state-changed-on-4xx":
+				default:
+					sig = c38sig(c, outcome+":"+fk, cause)
+				}
+			}
+			rp := c38replay(c, &resp)
+			if !first {
+				var pre []Req
+				pre = append(pre, c.Pre...)
+				for _, h := range history {
+					pre = append(pre, h.Req)
+				}
+				rp["pre"], rp["request"], rp["follow_up"], rp["served_before_by_the_same_process"] = pre, req, fk, history
+				rp["definitely_invalid"] = must
+			}
+			res.Viol = append(res.Viol, violRec{Sig: sig, What: desc(msg), Replay: rp})
+		}
+		cls := statusClass(resp.Status)
+		rejected := resp.Status >= 400 && resp.Status < 500
+		accepted := resp.Status >= 200 && resp.Status < 300
+		if first {
+			res.Key = req.key()
+			res.Counts["status:"+cls]++
+			res.Counts["kind:"+kind]++
+			if must {
+				res.Counts["must"]++
+			}
+			res.Counts["seed:"+c.Seed.id()]++
+			if sanity {
+				res.Counts["sanity"]++
+			}
+			if rejected {
+				res.Counts["rejected"]++
+				res.Counts["rejected:"+kind]++
+				if must {
+					res.Counts["must_rejected"]++
+				}
+			}
+			if accepted {
+				res.Counts["accepted"]++
+				if sanity {
+					res.Counts["sanity_ok"]++
+				}
+			}
+			res.Sample = map[string]any{"seed": c.Seed.id(), "mutation": c.Loc + "=" + c.Repl, "status": resp.Status}
+		} else {
+			res.Counts["follow:"+fk]++
+			res.Counts["follow_status:"+fk+":"+cls]++
+			if rejected {
+				res.Counts["follow_rejected:"+fk]++
+			}
+			if accepted {
+				res.Counts["follow_accepted:"+fk]++
+			}
+		}
+
+		switch {
+		case resp.Status >= 500:
+			if resp.Body == "" {
+				// describe the panic: a fresh process serves the same history, then the request
+				// through the bare sub-router (no recover middleware)
+				p := NewEnv(boot.Clone())
+				for _, pre := range c.Pre {
+					p.Do(pre)
+				}
+				for _, h := range history {
+					p.Do(h.Req)
+				}
+				pv := p.PanicOf(req)
+				p.Close()
+				viol("panic", siteOf(pv), "5xx with an empty body (recovered panic): "+pv)
+			} else {
+				viol("5xx", errorCause(resp.Log), "5xx in answer to a client request")
+			}
+		case resp.Status < 200 || (resp.Status >= 300 && resp.Status < 400):
+			viol("odd-status", "", "unexpected status class")
+		default:
+			if m := wellFormed(req.Method, route, resp); m != "" {
+				viol("malformed-response", "", m)
+			}
+			if resp.Status >= 400 && changed && !partial && !nonAtomicBulk(route, req) {
+				viol("state-changed-on-4xx", errorCodeOf(resp.Body), "4xx but the database changed")
+			}
+			if must && resp.Status < 300 {
+				viol("accepted", "", fmt.Sprintf("definitely-invalid input accepted with %d (database changed=%v)", resp.Status, changed))
+			}
+			if first && sanity && resp.Status >= 300 {
+				res.Engine = desc("sanity request (valid) was refused")
+			}
+		}
+		return resp, changed, true
+	}
+
+	resp, changed, goOn := serve("", c.Seed.API, c.Seed.Route, c.Req, c.Must, c.Sanity, c.Seed.PartialEffect)
+	if !goOn || res.Engine != "" {
 		return res
 	}
-	changed := e.Dump() != before
-	cls := statusClass(resp.Status)
-	kind := c.Loc
-	if i := strings.IndexByte(kind, ':'); i >= 0 {
-		kind = kind[:i]
-	}
-	desc := func(msg string) string {
-		return fmt.Sprintf("%s — seed %s, mutation %s=%s; request: %s; response: %s", msg, c.Seed.id(), c.Loc, c.Repl, c.Req, resp.short())
-	}
-	if isEngine(resp) {
-		if strings.Contains(resp.Log+resp.Body, "pgsim: parse:") {
-			// the mutation made the ledger emit SQL text that pgsim's parser rejects. pgsim
-			// cannot tell invalid SQL (a genuine 5xx on Postgres) from valid SQL it does not
-			// support, so the case is neither a violation nor evidence: inconclusive.
-			res.Counts["inconclusive"]++
-			res.Extra = map[string]string{"inconclusive": desc("SQL text rejected by pgsim's parser")}
+	for i := range c.Then {
+		f := &c.Then[i]
+		partial := false
+		if f.Kind == fRepeat {
+			partial = c.Seed.PartialEffect
+		}
+		fresp, _, goOn := serve(f.Kind, f.API, f.Route, f.Req, f.Kind == fRepeat && c.Must, false, partial)
+		if !goOn || res.Engine != "" {
 			return res
 		}
-		res.Engine = desc("pgsim engine error surfaced")
-		return res
-	}
-	viol := func(outcome, cause, msg string) {
-		res.Viol = append(res.Viol, violRec{Sig: c38sig(c, outcome, cause), What: desc(msg), Replay: c38replay(c, &resp)})
-	}
-	res.Key = c.Req.key()
-	res.Counts["status:"+cls]++
-	res.Counts["kind:"+kind]++
-	if c.Must {
-		res.Counts["must"]++
-	}
-	res.Counts["seed:"+c.Seed.id()]++
-	if c.Sanity {
-		res.Counts["sanity"]++
-	}
-	if resp.Status >= 400 && resp.Status < 500 {
-		res.Counts["rejected"]++
-		res.Counts["rejected:"+kind]++
-		if c.Must {
-			res.Counts["must_rejected"]++
+		if f.Kind != fRepeat {
+			continue
 		}
-	}
-	if resp.Status >= 200 && resp.Status < 300 {
-		res.Counts["accepted"]++
-		if c.Sanity {
-			res.Counts["sanity_ok"]++
+		// what RAN (whatever the answer to the repeat): a request that the script parser had
+		// refused was submitted again to the process that refused it
+		if code := rejectionCode(resp.Body); resp.Status >= 400 && resp.Status < 500 && scriptRejections[code] {
+			res.Counts["repeat_of_script_rejection:"+code]++
 		}
-	}
-	res.Sample = map[string]any{"seed": c.Seed.id(), "mutation": c.Loc + "=" + c.Repl, "status": resp.Status}
-
-	switch {
-	case resp.Status >= 500:
-		if resp.Body == "" {
-			p := NewEnv(boot.Clone())
-			for _, pre := range c.Pre {
-				p.Do(pre)
+		// same input, same database, same process: same verdict
+		firstCls, repCls := statusClass(resp.Status), statusClass(fresp.Status)
+		comparable := func(st int) bool { return st >= 200 && st < 300 || st >= 400 && st < 500 }
+		if !changed && comparable(resp.Status) && comparable(fresp.Status) {
+			res.Counts["repeat_on_unchanged_state"]++
+			if firstCls == "4xx" && repCls == "4xx" {
+				res.Counts["repeat_rejected_twice"]++
 			}
-			pv := p.PanicOf(c.Req)
-			p.Close()
-			viol("panic", siteOf(pv), "5xx with an empty body (recovered panic): "+pv)
-		} else {
-			viol("5xx", errorCause(resp.Log), "5xx in answer to a client request")
-		}
-	case resp.Status < 200 || (resp.Status >= 300 && resp.Status < 400):
-		viol("odd-status", "", "unexpected status class")
-	default:
-		if m := wellFormed(c, resp); m != "" {
-			viol("malformed-response", "", m)
-		}
-		if resp.Status >= 400 && changed && !c.Seed.PartialEffect {
-			viol("state-changed-on-4xx", errorCodeOf(resp.Body), "4xx but the database changed")
-		}
-		if c.Must && resp.Status < 300 {
-			viol("accepted", "", fmt.Sprintf("definitely-invalid input accepted with %d (database changed=%v)", resp.Status, changed))
-		}
-		if c.Sanity && resp.Status >= 300 {
-			res.Engine = desc("sanity request (valid) was refused")
+			if firstCls != repCls {
+				sig := c38sig(c, "verdict-changed-on-repeat:"+firstCls+"-then-"+repCls, "")
+				rp := c38replay(c, &fresp)
+				rp["pre"], rp["follow_up"] = append(append([]Req(nil), c.Pre...), c.Req), fRepeat
+				res.Viol = append(res.Viol, violRec{Sig: sig, Replay: rp,
+					What: fmt.Sprintf("the same request, repeated to the same server process on an unchanged database, was answered %d then %d — seed %s, mutation %s=%s; request: %s; first response: %s; second response: %s",
+						resp.Status, fresp.Status, c.Seed.id(), c.Loc, c.Repl, c.Req, resp.short(), fresp.short())})
+			}
 		}
 	}
 	return res
+}
+
+// nonAtomicBulk: a _bulk is all-or-nothing only when the request says atomic=true (the
+// handler reads it with QueryParamBool: "1" or "true", case-insensitive); otherwise its
+// elements are independent by contract and a failing bulk keeps the effect of the others —
+// whatever the seed the request was derived from (a mutation of `atomic` switches it off).
+func nonAtomicBulk(route string, req Req) bool {
+	if route != bulkRoute {
+		return false
+	}
+	for _, kv := range req.Query {
+		if kv.K == "atomic" {
+			v := strings.ToLower(kv.V)
+			return !(v == "1" || v == "true")
+		}
+	}
+	return true
+}
+
+// scriptRejections: the error codes that say "the Numscript text of the request was refused
+// by the parser/compiler" (the single routes give the code of the envelope, a failed bulk
+// the code of its failing element). v1 reports the same condition as VALIDATION, which
+// says nothing: it is not counted.
+var scriptRejections = map[string]bool{"COMPILATION_FAILED": true, "INTERPRETER_PARSE": true}
+
+// rejectionCode is the errorCode of a 4xx: of the envelope, or of the first failing
+// element of a bulk answer.
+func rejectionCode(body string) string {
+	var b struct {
+		ErrorCode string          `json:"errorCode"`
+		Data      json.RawMessage `json:"data"`
+	}
+	_ = json.Unmarshal([]byte(body), &b)
+	var els []struct {
+		ErrorCode string `json:"errorCode"`
+	}
+	if json.Unmarshal(b.Data, &els) == nil {
+		for _, d := range els {
+			if d.ErrorCode != "" {
+				return d.ErrorCode
+			}
+		}
+	}
+	if b.ErrorCode == "" {
+		return "none"
+	}
+	return b.ErrorCode
 }
 
 // c38Trace, when set (tests), sees every violating case, not only the first per signature.
@@ -751,7 +1073,7 @@ func c38Worker(w *workerSpec) int {
 }
 
 func runC38(r *ev.Run) (ev.Coverage, []string) {
-	assumptions := []string{pgsimAssumption, httpAssumption, "process isolation: every case runs in a child process of the same binary (which boots and seeds its own identical database) so that the death of the whole process (panic in a goroutine started by a handler) is an observable outcome"}
+	assumptions := []string{pgsimAssumption, httpAssumption, "process isolation: every case (all its requests: preliminary, mutated, follow-ups) runs in a child process of the same binary (which boots and seeds its own identical database) so that the death of the whole process (panic in a goroutine started by a handler) is an observable outcome"}
 	p, err := planC38(r.Thorough())
 	if err != nil {
 		r.EngineError(err.Error())
@@ -786,6 +1108,10 @@ func runC38(r *ev.Run) (ev.Coverage, []string) {
 			}
 			sg := c38sig(c, outcome, siteOf(res.Stderr))
 			what := fmt.Sprintf("%s%s — seed %s, mutation %s=%s; request: %s", msg, res.Stderr, c.Seed.id(), c.Loc, c.Repl, c.Req)
+			if st := res.Extra["step"]; st != "" {
+				// a case is a sequence of requests served by one process: which one was in flight
+				what += "; in flight when the process died: " + st
+			}
 			if c38Trace != nil {
 				c38Trace(sg, c, what)
 			}
@@ -844,6 +1170,32 @@ func runC38(r *ev.Run) (ev.Coverage, []string) {
 				r.EngineError("vacuous: no answered case for seed " + id)
 			}
 		}
+		// the repetition dimension: every answered case was repeated to the same process; some
+		// refused requests were refused again on an unchanged database (otherwise "the process
+		// remembers nothing of a refused request" was never put to the test); some requests
+		// refused BY THE SCRIPT PARSER were repeated, under both runtimes (the compiled-script
+		// cache — the one cross-request memory of the write path — was consulted for a script
+		// it had refused); every re-routing was exercised and met a refusal
+		answered := evals - counts["not_constructible"] - counts["inconclusive"] - counts["status:crash"]
+		if got := counts["follow:"+fRepeat] + counts["inconclusive_follow_up"] + counts["blocked_for_ever"]; got < answered || counts["follow:"+fRepeat] == 0 {
+			r.EngineError(fmt.Sprintf("vacuous: %d answered cases, %d repeated to the same process", answered, counts["follow:"+fRepeat]))
+		}
+		if counts["repeat_on_unchanged_state"] == 0 || counts["repeat_rejected_twice"] == 0 {
+			r.EngineError(fmt.Sprintf("vacuous: repeats on an unchanged database=%d, of which refused twice=%d", counts["repeat_on_unchanged_state"], counts["repeat_rejected_twice"]))
+		}
+		for _, code := range sortedKeys(scriptRejections) {
+			if counts["repeat_of_script_rejection:"+code] == 0 {
+				r.EngineError("vacuous: no request refused with " + code + " was repeated to the process that had refused it")
+			}
+		}
+		for _, k := range followKinds {
+			if counts["follow:"+k] == 0 || counts["follow_rejected:"+k] == 0 {
+				r.EngineError(fmt.Sprintf("vacuous: follow-up %s: %d sent, %d rejected with 4xx", k, counts["follow:"+k], counts["follow_rejected:"+k]))
+			}
+		}
+		if !p.scriptCacheLive {
+			r.EngineError("vacuous: the compiled-script cache of the production wiring is not in the explored stack (two Parse calls of one script gave two programs)")
+		}
 		// the sanity cases (valid cursor, idempotent replay) must all have passed, otherwise
 		// the neighbouring "must be rejected" cases prove nothing
 		if counts["sanity"] != counts["sanity_ok"] {
@@ -851,6 +1203,24 @@ func runC38(r *ev.Run) (ev.Coverage, []string) {
 		}
 	}
 	outcomes, kinds := map[string]int64{}, map[string]int64{}
+	follows := map[string]any{}
+	for _, k := range followKinds {
+		st := map[string]int64{}
+		for ck, v := range counts {
+			if pre := "follow_status:" + k + ":"; strings.HasPrefix(ck, pre) {
+				st[ck[len(pre):]] = v
+			}
+		}
+		follows[k] = map[string]any{"sent": counts["follow:"+k], "outcomes": st}
+	}
+	scriptTwice := map[string]int64{}
+	for _, code := range sortedKeys(scriptRejections) {
+		scriptTwice[code] = counts["repeat_of_script_rejection:"+code]
+	}
+	var requests int64 = evals - counts["not_constructible"]
+	for _, k := range followKinds {
+		requests += counts["follow:"+k]
+	}
 	for k, v := range counts {
 		if strings.HasPrefix(k, "status:") {
 			outcomes[k[7:]] = v
@@ -866,20 +1236,30 @@ func runC38(r *ev.Run) (ev.Coverage, []string) {
 		"seeds":               len(p.ctx.seeds),
 		"routes":              routeCount(p.ctx.seeds),
 		"not_constructible":   counts["not_constructible"],
-		"inconclusive_sql_rejected_by_pgsim_parser": counts["inconclusive"],
-		"definitely_invalid":                        counts["must"],
-		"definitely_invalid_rejected_4xx":           counts["must_rejected"],
-		"outcomes":                                  outcomes,
-		"cases_per_mutation_kind":                   kinds,
-		"exhaustive":                                exhaustive,
-		"samples":                                   samples.List(),
-		"stream_documents_mutated":                  map[bool]string{true: "all", false: "first of each log type"}[r.Thorough()],
-		"rule":                                      "one valid seed request per v1/v2 route (exporters/pipelines and bucket deletion excluded) on a clone of a booted+seeded pgsim database; mutations one at a time: every JSON pointer of the body (and of the query-string filter, and of the decoded cursor) x {null,true,0,-1,1.5,1e400,\"\",\"x\",[],{},2^70,300-char string} + delete; bad dates on date-valued fields/params; every query parameter of the seed, and the parameters the handler reads although the seed omits them (after, page_size, schemaVersion, expand, pit), x {-1,0,abc,1e9,empty,300 chars}; cursors x {garbage, base64 of invalid JSON/non-object/text, truncated}; malformed filters; named invalid addresses/assets/variable values; empty/truncated/non-JSON body; Content-Type; Idempotency-Key reused with a different input; path id/address. Oracle: no 5xx/panic/process crash, well-formed body for the status, 4xx leaves the dump unchanged (except non-atomic bulk, whose elements are independent by contract), definitely-invalid input (explicit table) is 4xx; in-doubt mutations may be 2xx or 4xx. Signatures are at root-cause level: panic/process-crash = call site; 5xx = input class + logged error class; state-changed-on-4xx = route; accepted/malformed = route + pointer class + replacement class",
+		"inconclusive_sql_rejected_by_pgsim_parser":    counts["inconclusive"],
+		"definitely_invalid":                           counts["must"],
+		"definitely_invalid_rejected_4xx":              counts["must_rejected"],
+		"outcomes":                                     outcomes,
+		"cases_per_mutation_kind":                      kinds,
+		"exhaustive":                                   exhaustive,
+		"requests_judged":                              requests,
+		"follow_ups_served_by_the_same_process":        follows,
+		"repeats_on_unchanged_database":                counts["repeat_on_unchanged_state"],
+		"repeats_refused_twice":                        counts["repeat_rejected_twice"],
+		"repeats_of_requests_refused_by_script_parser": scriptTwice,
+		"inconclusive_follow_ups":                      counts["inconclusive_follow_up"],
+		"requests_that_would_wait_for_ever":            counts["blocked_for_ever"],
+		"numscript_cache_max_count":                    ServeNumscriptCacheMaxCount,
+		"numscript_cache_live":                         p.scriptCacheLive,
+		"samples":                                      samples.List(),
+		"stream_documents_mutated":                     map[bool]string{true: "all", false: "first of each log type"}[r.Thorough()],
+		"rule":                                         "one valid seed request per v1/v2 route (exporters/pipelines and bucket deletion excluded) on a clone of a booted+seeded pgsim database; mutations one at a time: every JSON pointer of the body (and of the query-string filter, and of the decoded cursor) x {null,true,0,-1,1.5,1e400,\"\",\"x\",[],{},2^70,300-char string} + delete; bad dates on date-valued fields/params; every query parameter of the seed, and the parameters the handler reads although the seed omits them (after, page_size, schemaVersion, expand, pit), x {-1,0,abc,1e9,empty,300 chars}; cursors x {garbage, base64 of invalid JSON/non-object/text, truncated}; malformed filters; named invalid addresses/assets/variable values; empty/truncated/non-JSON body; Content-Type; Idempotency-Key reused with a different input; path id/address. Named non-compiling scripts (unclosed, unknown statement, garbage, undeclared variable, account as amount) at every script.plain, under the machine and the interpreter runtime. HISTORY DIMENSION: one case = one simulated server process (one Go object graph over one database clone, system controller wired as `serve` does, compiled-script cache of 1024 entries on) that serves the mutated request, then the byte-identical request AGAIN, then — for the routes that carry a transaction — the same body through the other API version (v1<->v2, dryRun<->preview) and as the single element of an atomic v2 _bulk (or, for a _bulk, the element the mutation touched through POST /v2/{ledger}/transactions); each of these requests is judged by the same oracle against the database as it stood before it (the repeat keeps the definitely-invalid mark, the re-routed requests are in doubt), and when the first send left the database unchanged the repeat must get the same status class (same input, same state, same process). Oracle: no 5xx/panic/process crash, well-formed body for the status, 4xx leaves the dump unchanged (except non-atomic bulk, whose elements are independent by contract), definitely-invalid input (explicit table) is 4xx; in-doubt mutations may be 2xx or 4xx. Signatures are at root-cause level: panic/process-crash = call site; 5xx = input class + logged error class; state-changed-on-4xx = route; accepted/malformed = route + pointer class + replacement class (+ the follow-up kind when the request judged is a follow-up); verdict-changed-on-repeat = route + pointer class + replacement class + the two status classes",
 	}
 	return cov, assumptions
 }
 
-// the whole quick space takes ~90 s on an idle 16-core machine; the budget leaves room for a loaded one
+// the whole quick space (11.7k cases, 26k requests judged: every case is a short history on
+// one process) takes ~65-80 s on a 16-core machine at load 30; the budget leaves room for more
 const c38Quick, c38Thorough = 300 * time.Second, 15 * time.Minute
 
 func routeCount(seeds []Seed) int {
